@@ -43,6 +43,7 @@ var hostileClasses = []string{
 	"quote", "backslash", "parens", "angle", "comma", "semicolon", "colon", "encoded-word", "ew-end", "blanks", "long", "long-utf8", "mixed",
 	"backslash-quote", "tab", "leading-blank", "only-blanks", "quote-crlf-field",
 	"ew-q-crlf-field", "ew-b-crlfcrlf", "ew-q-lf-field", "ew-two-words-crlf",
+	"utf8-comma", "utf8-parens", "utf8-angle", "utf8-quote", "utf8-colon-semicolon", "utf8-at-brackets",
 }
 
 func hostile(r *mrand.Rand, class string, n int) string {
@@ -112,6 +113,19 @@ func hostile(r *mrand.Rand, class string, n int) string {
 		return strings.Repeat(w()+" ", 50+r.Intn(400)) + sent
 	case "long-utf8":
 		return strings.Repeat("längé ", 50+r.Intn(300)) + sent
+	case "utf8-comma":
+		// non-ASCII text (so it has to be encoded) together with characters that are special in a phrase / parameter
+		return "Müller, Jörg, other <o@o.example>, " + sent
+	case "utf8-parens":
+		return "Jörg (Vertrieb) ) ( " + sent
+	case "utf8-angle":
+		return "é <evil@example.org>, y " + sent
+	case "utf8-quote":
+		return "Jörg \"Joe\" Müller \\ " + sent
+	case "utf8-colon-semicolon":
+		return "Grüße: alle; " + sent
+	case "utf8-at-brackets":
+		return "ü@example.org [x] " + sent
 	case "ew-q-crlf-field":
 		// the outer form of one valid encoded-word, with a line break and a field inside the encoded text
 		return "=?UTF-8?q?" + sent + "\r\nX-Inj-" + fmt.Sprint(n) + ":_1\r\nX-Rest:?="
